@@ -46,6 +46,10 @@ pub struct Case {
     pub cfg: FileCfg,
     pub ops: Vec<LOp>,
     pub terminal: Terminal,
+    /// a second thread logs continuously (source 1) while the history runs; after every flush()
+    /// the first thread's records are looked for in the files at once
+    #[serde(default)]
+    pub concurrent: bool,
 }
 
 pub struct P;
@@ -82,14 +86,39 @@ struct Run {
     expected: Vec<String>,
     clone_drop_before_write: bool,
     pending_bytes: usize,
+    flush_failure: Option<String>,
 }
 
 /// executes the ops and the terminal call; `observe` is called right after the terminal call
 /// returned, while the (dropped or shut down) logger objects may still be alive
-fn drive(case: &Case, log: Box<dyn log::Log>, handle: flexi_logger::LoggerHandle) -> Run {
-    let mut run = Run { expected: Vec::new(), clone_drop_before_write: false, pending_bytes: 0 };
+fn drive(case: &Case, log: Box<dyn log::Log>, handle: flexi_logger::LoggerHandle, after_flush: &mut dyn FnMut(&[String]) -> Result<(), String>) -> Run {
+    let mut run = Run { expected: Vec::new(), clone_drop_before_write: false, pending_bytes: 0, flush_failure: None };
     let mut q = 0u32;
     let mut clone_dropped = false;
+    let log: std::sync::Arc<dyn log::Log> = std::sync::Arc::from(log);
+    let stop = std::sync::Arc::new(std::sync::atomic::AtomicBool::new(false));
+    let bg = if case.concurrent {
+        // widen the window in which the other thread holds the writer's lock
+        {
+            let hh = h();
+            let mut ps = hh.points.lock().unwrap();
+            ps.noise_seed = crate::util::fnv(serde_json::to_string(case).unwrap().as_bytes());
+            ps.noise_points.insert("write".to_string());
+            drop(ps);
+            hh.set_mode(crate::hooks::MODE_NOISE);
+        }
+        let (l2, s2) = (log.clone(), stop.clone());
+        Some(std::thread::spawn(move || {
+            let mut i = 0u32;
+            while !s2.load(std::sync::atomic::Ordering::SeqCst) {
+                let p = payload(1, i, 20);
+                i += 1;
+                l2.log(&log::Record::builder().args(format_args!("{p}")).level(log::Level::Info).target("flv").module_path(Some("flv")).build());
+            }
+        }))
+    } else {
+        None
+    };
     for op in &case.ops {
         match op {
             LOp::Write(len) => {
@@ -106,6 +135,11 @@ fn drive(case: &Case, log: Box<dyn log::Log>, handle: flexi_logger::LoggerHandle
                 handle.flush();
                 if !case.cfg.mode.is_async() {
                     run.pending_bytes = 0;
+                    if run.flush_failure.is_none() {
+                        if let Err(e) = after_flush(&run.expected) {
+                            run.flush_failure = Some(e);
+                        }
+                    }
                 }
             }
             LOp::Rotate => {
@@ -121,6 +155,11 @@ fn drive(case: &Case, log: Box<dyn log::Log>, handle: flexi_logger::LoggerHandle
             LOp::Sleep(ms) => std::thread::sleep(Duration::from_millis(*ms)),
         }
     }
+    stop.store(true, std::sync::atomic::Ordering::SeqCst);
+    if let Some(j) = bg {
+        let _ = j.join();
+    }
+    h().set_mode(crate::hooks::MODE_OFF);
     match case.terminal {
         Terminal::Shutdown => {
             handle.shutdown();
@@ -153,7 +192,7 @@ pub fn child_main(file: &Path) -> ! {
             unsafe { libc::_exit(7) }
         }
     };
-    let _ = drive(&case, log, handle);
+    let _ = drive(&case, log, handle, &mut |_| Ok(()));
     // no flush of Rust's own stdout buffer, no destructors
     unsafe { libc::_exit(0) }
 }
@@ -188,8 +227,9 @@ impl Property for P {
             prop::option::weighted(0.5, (prop_oneof![Just(30u64), Just(200u64), 10u64..400], naming_strat())),
             prop_oneof![3 => Just(Terminal::Shutdown), 3 => Just(Terminal::DropLastHandle), 2 => Just(Terminal::Flush)],
             suffix_strat(),
+            prop::bool::weighted(0.3),
         )
-            .prop_flat_map(|(out, mode, rot, terminal, suffix)| {
+            .prop_flat_map(|(out, mode, rot, terminal, suffix, concurrent)| {
                 let cap = mode.buffer_cap().filter(|c| *c < 4096).unwrap_or(40);
                 let len = prop_oneof![8usize..30, Just(cap.saturating_sub(2).max(8)), Just(cap.max(8)), Just(cap + 1), Just(3 * cap + 7)];
                 let op = prop_oneof![
@@ -199,9 +239,9 @@ impl Property for P {
                     2 => Just(LOp::CloneDrop),
                     1 => prop_oneof![Just(1u64), Just(3u64)].prop_map(LOp::Sleep),
                 ];
-                (Just((out, mode, rot, terminal, suffix)), prop::collection::vec(op, 1..25))
+                (Just((out, mode, rot, terminal, suffix, concurrent)), prop::collection::vec(op, 1..25))
             })
-            .prop_map(|((out, mode, rot, terminal, suffix), ops)| {
+            .prop_map(|((out, mode, rot, terminal, suffix, concurrent), ops)| {
                 let mode = if matches!(out, Out::Stdout | Out::Stderr) {
                     match mode {
                         Mode::BufAndFlush(c, _) => Mode::BufDontFlush(c),
@@ -212,6 +252,9 @@ impl Property for P {
                     mode
                 };
                 let terminal = if mode.is_async() && terminal == Terminal::Flush { Terminal::Shutdown } else { terminal };
+                // without rotation: reading one file that only grows is an atomic enough observation while
+                // the second thread keeps logging (a snapshot of a rotating family is not)
+                let concurrent = concurrent && out == Out::File && !mode.is_async() && rot.is_none();
                 let rot = rot.map(|(n, nam)| {
                     let nam = match nam {
                         Nam::Custom { current, fmt } if current.as_deref().is_none_or(str::is_empty) => Nam::Custom { current: Some("cur".into()), fmt },
@@ -225,6 +268,7 @@ impl Property for P {
                     cfg: FileCfg { basename: Some("c04".into()), discr: None, suffix, start_ts: false, rot, mode, crlf: false, utc: false, symlink: false, bg_cleanup: false, via_logger: true },
                     ops,
                     terminal,
+                    concurrent,
                 }
             })
             .boxed()
@@ -242,6 +286,15 @@ impl Property for P {
                 expected.extend_from_slice(p.as_bytes());
                 expected.push(b'\n');
             }
+            // the lines of the concurrent second thread are not part of the comparison
+            let got: Vec<u8> = if case.concurrent {
+                got.split_inclusive(|b| *b == b'\n').filter(|l| !l.starts_with(b"1:")).flatten().copied().collect()
+            } else {
+                got
+            };
+            if let Some(e) = &run.flush_failure {
+                out.set_fail("records-missing-after-flush", e.clone());
+            }
             if got != expected {
                 let sig = if run.clone_drop_before_write { "records-missing-after-clone-drop" } else { "records-missing-after-terminal-call" };
                 out.set_fail(sig, format!("after {:?} ({:?}, {:?}): {}", case.terminal, case.out, case.cfg.mode, diff_msg(&expected, &got)));
@@ -249,6 +302,9 @@ impl Property for P {
             let buffering = case.cfg.mode.is_async() || case.cfg.mode.buffer_cap().is_some() || case.out == Out::Writer;
             if run.clone_drop_before_write {
                 out.class("clone-dropped-before-write");
+            }
+            if case.concurrent {
+                out.class("concurrent-second-thread");
             }
             if run.pending_bytes > 0 && buffering {
                 out.class("buffered-at-terminal-call");
@@ -269,7 +325,24 @@ impl Property for P {
                     Ok(x) => x,
                     Err(e) => return Outcome::fail("build-failed", format!("{e:?}")),
                 };
-                let run = drive(case, log, handle);
+                let cfg = case.cfg.clone();
+                let dir2 = dir.clone();
+                let run = drive(case, log, handle, &mut |expected_so_far: &[String]| {
+                    // right after flush() returned: every record of this thread is in the files
+                    let snap = snapshot(&dir2);
+                    let fam = family(&cfg, &snap)?;
+                    let bytes = stream_of(&fam);
+                    let mine: Vec<String> = String::from_utf8_lossy(&bytes).lines().filter(|l| l.starts_with("0:")).map(str::to_string).collect();
+                    if mine != expected_so_far {
+                        return Err(format!(
+                            "right after flush() returned, the files hold {} of the {} records this thread had logged (first missing: {:?})",
+                            mine.len(),
+                            expected_so_far.len(),
+                            expected_so_far.iter().find(|e| !mine.contains(e))
+                        ));
+                    }
+                    Ok(())
+                });
                 // immediately: no sleep between the terminal call and the observation
                 let snap = snapshot(&dir);
                 let fam = match family(&case.cfg, &snap) {
@@ -286,7 +359,7 @@ impl Property for P {
                     Ok(x) => x,
                     Err(e) => return Outcome::fail("build-failed", format!("{e:?}")),
                 };
-                let run = drive(case, log, handle);
+                let run = drive(case, log, handle, &mut |_| Ok(()));
                 let got: Vec<u8> = committed.lock().unwrap().iter().flat_map(|s| {
                     let mut b = s.clone().into_bytes();
                     b.push(b'\n');
@@ -303,7 +376,7 @@ impl Property for P {
                     return Outcome::fail("child-failed", format!("exit {:?} signal {:?} timed_out {}: {}", co.code, co.signal, co.timed_out, lossy(&co.stderr)));
                 }
                 // expected: recompute from the ops
-                let mut run = Run { expected: Vec::new(), clone_drop_before_write: false, pending_bytes: 0 };
+                let mut run = Run { expected: Vec::new(), clone_drop_before_write: false, pending_bytes: 0, flush_failure: None };
                 let mut q = 0;
                 let mut cd = false;
                 for op in &case.ops {
